@@ -19,12 +19,14 @@ INTERNAL_OPS = ["Add", "Multiply", "Minus", "Divide", "Power", "Negation", "Reci
                 "Cosine", "Sine", "NthPower", "NthRoot", "Exponential", "Logarithm"]
 
 STEP_KINDS = ["at", "at_num", "mk_partial", "mk_derivative", "mk_differential", "mk_located",
-              "pat", "dat", "comp", "compat", "lcomp", "asx", "build", "norm", "eq", "hash", "repr", "peq"]
+              "pat", "dat", "comp", "compat", "lcomp", "asx", "build", "norm", "eq", "hash", "repr", "peq",
+              "tat", "tpat"]
 
 DEFAULT_WEIGHTS = {
     "at": 10, "at_num": 2, "mk_partial": 4, "mk_derivative": 1.5, "mk_differential": 2.5,
     "mk_located": 3, "pat": 8, "dat": 3, "comp": 2.5, "compat": 3, "lcomp": 2, "asx": 2.5,
     "build": 2.5, "norm": 1.2, "eq": 1, "hash": 0.5, "repr": 0.7, "peq": 0.4,
+    "tat": 3, "tpat": 1.5,
 }
 
 
@@ -54,6 +56,7 @@ class Profile:
         self.ovf_mid = b.get("ovf_mid", True)
         self.poly_prob = rng.choice(b.get("poly_prob", [0.0, 0.05, 0.15]))
         self.perm_points_prob = rng.choice(b.get("perm_points_prob", [0.0, 0.2, 0.4]))
+        self.frac_prob = rng.choice(b.get("frac_prob", [0.0, 0.0, 0.1, 0.3]))
         self.fresh_names = rng.random() < b.get("fresh_names_prob", 0.3)
         self.arm_prob = rng.choice(b.get("arm_prob", [0.1, 0.25, 0.25, 0.5]))
         self.miss_prob = rng.choice(b.get("miss_prob", [0.2, 0.4, 0.6]))
@@ -417,6 +420,9 @@ def gen_points(rng, pr, ord_vars, trip_vars, miss_vars):
                 coords.append([m, rng.choice([0.5, 1, 2, -1])])
         if rng.random() < 0.15:
             coords.append(["unused_q", 7])
+        if pr.frac_prob and rng.random() < pr.frac_prob and coords:
+            # a real-number coordinate that is neither int nor float
+            coords[rng.randrange(len(coords))][1] = {"frac": rng.choice([[1, 3], [-2, 3], [7, 10], [5, 2], [1, 7]])}
         rng.shuffle(coords)
         points.append(coords)
     if len(points) >= 2 and rng.random() < pr.perm_points_prob:
@@ -664,7 +670,31 @@ def gen_steps(rng, pr, nodes, info, all_vars, points):
         elif kind == "repr":
             st.update(k="repr", o=rng.choice(pool.entries)["name"])
         elif kind == "peq":
-            st.update(k="peq", p=p, twin=sorted([list(c) for c in points[p]]))
+            st.update(k="peq", p=p, twin=sorted([list(c) for c in points[p]], key=lambda c: c[0]))
+        elif kind == "tat":
+            small = [x for x in pool.of_type("E") if x["size"] <= 120 and x["depth"] >= 2]
+            if not small:
+                continue
+            s0 = rng.choice(small)
+            op = rng.choice(["Add", "Multiply", "Minus", "Negation", "Sine", "Exponential", "NthPower"])
+            if op in lib.NARY:
+                ks = [s0, rng.choice(pool.of_type("E"))] if rng.random() < 0.6 else [s0]
+                if rng.random() < 0.5:
+                    ks.reverse()
+            elif op == "Minus":
+                ks = [s0, rng.choice(pool.of_type("E"))]
+            else:
+                ks = [s0]
+            if 1 + sum(x["size"] for x in ks) > 200:
+                continue
+            st.update(k="tat", op=op, kids=[x["name"] for x in ks], p=p, via="ctor")
+            if op == "NthPower":
+                st["n"] = rng.choice([1, 2, 3])
+            elif op == "Exponential":
+                st["base"] = rng.choice(BASES_EXP)
+        elif kind == "tpat":
+            e = pick_expr(c)
+            st.update(k="tpat", e=e["name"], v=pick_var(e), vobj=rng.random() < pr.vobj_prob, early=False, p=p)
         else:
             continue
         steps.append(st)
@@ -764,7 +794,7 @@ C06_BASE = {
     "const_pool": C06_CONST, "grid": C06_GRID,
     # constants like 1e200 are representable but their squares (quotient rule) are not: routes then differ
     # by silent under/overflow, which C06's "up to rounding / inside the double range" proviso excludes
-    "ovf_mid": False,
+    "ovf_mid": False, "frac_prob": [0.0],
 }
 
 
